@@ -39,6 +39,8 @@ INT_POOL = sorted(set(
      0x123, 0x555, 0x7FF, 0x800, 0xABC, 0xFFF, 0x1234, 0x5555, 0x7FFF, 0x8000, 0xFFFF, 0x12345, 0x7FFFF, 0xFFFFF,
      0x12345678, 0x7FFFFFFF, 0xFFFFFFFF]
     + [1 << k for k in range(0, 21)] + [(1 << k) - 4 for k in range(3, 13)] + [4 * x for x in (3, 5, 9, 10, 17, 33, 43)]
+    + [126, 127, 128, 129, 254, 255, 256, 32766, 32767, 32768, 32769, 65535, 65536, (1 << 31) - 2, (1 << 31) - 1, 1 << 31,
+       (1 << 32) - 1, -126, -127, -128, -129, -130, -32767, -32768, -32769, -(1 << 31) + 1, -(1 << 31), -(1 << 31) - 1]
     + [-1, -2, -3, -4, -5, -8, -12, -16, -18, -30, -33, -64, -100, -128, -129, -255, -256, -1000, -2048, -2049, -4095]))
 
 
@@ -94,7 +96,14 @@ def n_thumb(s, ins):
 
 
 def n_x86(s, ins):
-    return s
+    # ppci prints memory operands as [base, disp] / [base, index, disp]; intel syntax wants sums
+    def mem(m):
+        parts = [x.strip() for x in m.group(1).split(',')]
+        out = parts[0]
+        for x in parts[1:]:
+            out += (' - ' + x[1:].strip()) if x.startswith('-') else (' + ' + x)
+        return '[' + out + ']'
+    return re.sub(r'\[([^\]]*,[^\]]*)\]', mem, s)
 
 
 def n_msp430(s, ins):
